@@ -239,7 +239,8 @@ TABLE = {
     'chi_squared::ChiSquared': dict(
         grid=[{'dof': 1}, {'dof': 4}, {'dof': 7}, {'dof': 2}],
         xs=lambda p: [0.37, 2.1, 8.3, -1.5, 4e3, 0.0],
-        pdf=lambda p, x: _edge(x == 0, fpow(x, p['dof'] / 2 - 1) * fexp(-x / 2) / (2 ** (p['dof'] / 2) * math.gamma(p['dof'] / 2))) if x >= 0 else 0.0,
+        # the crate documents its convention: support (0, inf) for one degree of freedom, [0, inf) otherwise
+        pdf=lambda p, x: _edge(x == 0 and p['dof'] == 1, fpow(x, p['dof'] / 2 - 1) * fexp(-x / 2) / (2 ** (p['dof'] / 2) * math.gamma(p['dof'] / 2))) if x >= 0 else 0.0,
         mean=lambda p: float(p['dof']), var=lambda p: 2.0 * p['dof']),
     't::T': dict(
         grid=[{'dof': 3.0}, {'dof': 7.5}, {'dof': 2.6}, {'dof': 1.5}],
